@@ -28,6 +28,8 @@ class FakeNode:
         self.store = {}
         self.calls = []          # (method, params)
         self.pay_mode = "fail"   # "fail" | "complete:<preimage hex>"
+        self.parts = []          # sendpay parts as listsendpays reports them
+        self.release = threading.Event()
         self.lock = threading.Lock()
         self.sock = socket.socket(socket.AF_UNIX, socket.SOCK_STREAM)
         self.sock.bind(path)
@@ -104,7 +106,9 @@ class FakeNode:
                 self.store[k] = (p.get("string"), g)
             return ok({"key": list(k), "generation": g, "string": p.get("string")})
         if m == "listsendpays":
-            return ok({"payments": []})
+            with self.lock:
+                ps = [dict(x) for x in self.parts if x["payment_hash"] == p.get("payment_hash") and (p.get("status") in (None, x["status"]))]
+            return ok({"payments": ps})
         if m == "pay":
             if self.pay_mode.startswith("complete:"):
                 pre = self.pay_mode.split(":")[1]
@@ -113,11 +117,18 @@ class FakeNode:
                            "status": "complete"})
             return err(210, "Ran out of routes to try")
         if m == "waitsendpay":
+            with self.lock:
+                known = [x for x in self.parts if x["payment_hash"] == p.get("payment_hash") and x.get("partid") == p.get("partid")]
+            if known and known[0]["status"] == "pending":
+                # a part that stays in flight: the call does not return (until the test ends)
+                self.release.wait(30)
+                return err(204, "part failed")
             return err(208, "never attempted")
         return err(-32601, "unknown method")
 
     def close(self):
         self.stop = True
+        self.release.set()
         try:
             self.sock.close()
         except Exception:
@@ -295,16 +306,17 @@ def templates():
     """request templates with real signed invoices, built by the Rust harness"""
     A = 1000
     scen = {"cfg": {"base": 0, "ppm": 0, "pdelta": 40, "sdelta": 10, "mpp": 60},
-            "invs": [{"hash": "h1", "amt": A}, {"hash": "h2", "amt": A, "hint": True}],
+            "invs": [{"hash": "h1", "amt": A}, {"hash": "h2", "amt": A, "hint": True}, {"hash": "h3", "amt": A}],
             "htlcs": [{"hash": "h1", "inv": 1, "amt": A, "total": A, "exp": 1000, "rel": 500},
-                      {"hash": "h2", "inv": 2, "amt": A, "total": A, "exp": 1000, "rel": 500}], "probe": []}
+                      {"hash": "h2", "inv": 2, "amt": A, "total": A, "exp": 1000, "rel": 500},
+                      {"hash": "h3", "inv": 3, "amt": A, "total": A, "exp": 1000, "rel": 500}], "probe": []}
     p = VERIF + "/work/e2e_scen.json"
     json.dump(scen, open(p, "w"))
     out = subprocess.run([run.VFH, "mkreq", p], capture_output=True, text=True)
     if out.returncode != 0:
         raise run.ToolError("vfh mkreq failed: " + out.stderr[-1000:])
     r = json.loads(out.stdout)
-    return {"A": A, "local": r["local"], "ok": r["reqs"][0], "hint": r["reqs"][1]}
+    return {"A": A, "local": r["local"], "ok": r["reqs"][0], "hint": r["reqs"][1], "other": r["reqs"][2], "preimages": r["preimages"]}
 
 def patched(tmpl, rid, htlc_id, amount, total, exp, rel):
     q = json.loads(json.dumps(tmpl))
@@ -474,4 +486,48 @@ def mpp_check(seed, tier, wd):
     if "No error has been found" not in out:
         raise run.ToolError("ConfigTrace failed:\n" + out[-2500:])
     viol = [(runno, text, recs[runno - 1]) for runno, text in run.tagged(out, "CFGVIOL") if "MppTimeout" in text]
+    return {"runs": len(recs), "violations": viol}
+
+
+def iso_check(seed, tier, wd):
+    """C14 on the real binary (the only engine that runs rpc.rs): payment A was interrupted with `nparts` parts still
+    in flight, so after the restart the plugin waits on them (waitsendpay never returns); an HTLC set for another
+    hash B must still be paid and settled."""
+    build()
+    T = templates()
+    recs = []
+    for runno, nparts in enumerate((1, 4, 9), 1):
+        pl = Plugin(options={OPT[k]: v for k, v in dict(DEFAULTS, mpp=5).items()}, height=1000)
+        pl.node.node_id = T["local"]
+        try:
+            hA = hashlib.sha256(bytes.fromhex(T["preimages"][0])).hexdigest()
+            preB = T["preimages"][2]
+            pl.node.store[("trampoline", "payments", hA, "state")] = (json.dumps({"Pending": {"attempt_id": "1", "attempt_time_seconds": int(time.time())}}), 0)
+            pl.node.store[("trampoline", "payments", hA, "attempts", "1")] = (json.dumps({"amount_msat": T["A"], "bolt11": "x", "completed": False, "success": False}), 0)
+            pl.node.parts = [{"created_index": k, "id": k, "groupid": 1, "partid": k, "payment_hash": hA, "status": "pending",
+                              "amount_sent_msat": 1, "created_at": 1} for k in range(1, nparts + 1)]
+            pl.node.pay_mode = "complete:" + preB
+            if pl.handshake() != "ok":
+                raise run.ToolError("real binary did not start for the isolation scenario")
+            A = T["A"]; need = A + A * 5000 // 10**6
+            pl.send(patched(T["ok"], "A1", 1, need, need, 1000 + 34 + 1008 + 500, 70000))
+            time.sleep(0.4)
+            pl.send(patched(T["other"], "B1", 2, need, need, 1000 + 34 + 1008 + 500, 70000))
+            fr = pl.read_frames(lambda f: any(ok and o.get("id") == "B1" for ok, o in f), 4.0)
+            waits = len([c for c in pl.node.calls if c[0] == "waitsendpay"])
+            recs.append({"ev": "e2e", "run": runno, "sent": ['"B1"'], "leftover": pl.leftover(), "a_waits": waits,
+                         "frames": [{"json": ok, "id": json.dumps(o.get("id")) if ok and "id" in o else "none",
+                                     "kind": ("result" if ok and "result" in o else "error" if ok and "error" in o else "notification" if ok and "method" in o else "garbage"),
+                                     "result": (o.get("result", {}).get("result", "") if ok and isinstance(o.get("result"), dict) else "")}
+                                    for ok, o in fr if not (ok and o.get("method") == "log")]})
+        finally:
+            pl.close()
+    tf = wd + "/e2e_iso.ndjson"
+    with open(tf, "w") as f:
+        for l in recs:
+            f.write(json.dumps(l) + "\n")
+    rc, out = run.tlc_trace("E2eTrace.tla", "E2eTrace.cfg", tf, wd + "/e2ei")
+    if "No error has been found" not in out:
+        raise run.ToolError("E2eTrace failed:\n" + out[-2000:])
+    viol = [(runno, text, recs[runno - 1]) for runno, text in run.tagged(out, "E2EVIOL")]
     return {"runs": len(recs), "violations": viol}
